@@ -27,6 +27,7 @@ structure DState where
   tests : Array TSpec := #[]
   ran   : Bool := false
   cli   : Bool := false                    -- the run goes through CommandLineTestRunner with `-p`
+  nproc0 : Bool := false                   -- the runner cannot fork (RLIMIT_NPROC 0): the real fork seam fails
   nofork : Bool := false                   -- the harness links the build variant without fork/waitpid/kill
 deriving Inhabited
 
@@ -195,14 +196,16 @@ def hexOfString (s : String) : String := Proto.hex s.toUTF8.toList
     every further call (exit status 0, flagged `starved`); a real test's list is what the real
     waitpid returned -/
 def scriptOf (s : TSpec) (o : TObs) : TestScript :=
-  if s.real then { forkOk := !s.forkFails, outs := o.rwaits }
+  if s.real then { forkOk := !s.forkFails && o.forked != ["realfail"], outs := o.rwaits }
   else { forkOk := !s.forkFails, outs := s.outs ++ [.status 0#32] }
 
 def modelTestLines (t : Nat) (s : TSpec) (o : TObs) : List String :=
   let sc := scriptOf s o
   let r := runSeparate sc
-  let head := [s!"started {t}", s!"forked {t} " ++ (if s.forkFails then "fail" else if s.real then "real" else "ok")]
-  let env := if s.real && !s.forkFails then (o.rlines.take r.consumed) else []
+  let realFail := s.real && o.forked == ["realfail"]
+  let head := [s!"started {t}", s!"forked {t} " ++
+    (if s.forkFails then "fail" else if realFail then "realfail" else if s.real then "real" else "ok")]
+  let env := if s.real && !s.forkFails && !realFail then (o.rlines.take r.consumed) else []
   let starved :=
     if s.real then (if r.ended == .starved then [s!"starved {t}"] else [])
     else (if r.consumed > s.outs.length then [s!"starved {t}"] else [])
@@ -256,7 +259,8 @@ def modelRun (d : DState) (obs : List (List String)) : List String :=
   let texts := if d.cli then
       (List.range n).filterMap (fun t =>
         let s := d.tests[t]!
-        if s.real && s.inject == 0 && !s.forkFails then some s!"childtext {t} {childTexts s.phase s.actions}" else none)
+        if s.real && s.inject == 0 && !s.forkFails && (ro.per[t]!).forked != ["realfail"] then
+          some s!"childtext {t} {childTexts s.phase s.actions}" else none)
     else []
   per ++ [s!"runcount {st.runCount}", s!"failures {st.failureCount}",
           "overall " ++ (if st.overallFailure then "fail" else "ok")] ++ cliLines ++
@@ -265,6 +269,11 @@ def modelRun (d : DState) (obs : List (List String)) : List String :=
 def modelStep (d : DState) (op : List String) (obs : List (List String)) : DState × List String :=
   match op with
   | ["skip"] => (d, [])
+  | ["nproc0"] =>
+    -- environment: could the harness make fork fail?  (echoed; when it could not, nothing is run)
+    if d.ran || d.tests.isEmpty || d.nproc0 then (d, ["bad-op"])
+    else if obs.any (· == ["forkfail", "unsupported"]) then ({ d with nproc0 := true, ran := true }, ["forkfail unsupported"])
+    else ({ d with nproc0 := true }, ["forkfail supported"])
   | ["run"] => if d.ran || d.tests.isEmpty then (d, ["bad-op"]) else ({ d with ran := true }, modelRun d obs)
   | _ =>
     match applyOp d op with
@@ -400,7 +409,7 @@ def specTest (t : Nat) (s : TSpec) (o : TObs) : Except String Unit := do
   if o.inrunner then throw s!"test {t} was executed inside the runner process although separate-process mode was requested (not forked)"
   if !o.ended then throw s!"test {t} was started but the parent never finished it"
   if o.forked.length != 1 then throw s!"test {t}: fork called {o.forked.length} times"
-  if s.forkFails then
+  if s.forkFails || o.forked == ["realfail"] then
     if !(matchSeq false [{ cls := .fork }] o.fails) then
       throw s!"test {t}: fork failed, expected exactly one fork failure, got {o.fails}"
     if o.consumed.getD 0 != 0 || !o.rwaits.isEmpty then throw s!"test {t}: waited although fork had failed"
@@ -486,6 +495,8 @@ def specRun (d : DState) (obs : List (List String)) : Except String Unit := do
   if ro.order != List.range n then throw s!"tests started {ro.order}, expected all of 0..{n - 1} in order (later tests must still run)"
   for t in List.range n do
     specTest t (d.tests[t]!) (ro.per[t]!)
+    if d.nproc0 && (d.tests[t]!).real && !(d.tests[t]!).forkFails && (ro.per[t]!).forked != ["realfail"] then
+      throw s!"test {t}: this process cannot fork (RLIMIT_NPROC 0) but the real fork seam reported no failure"
   let total := (List.range n).foldl (fun acc t => acc + (ro.per[t]!).fails.length) 0
   if ro.runcount != some n then throw s!"run count {ro.runcount} for {n} tests"
   if ro.failures != some total then throw s!"failure count {ro.failures} but {total} failures were recorded"
@@ -507,7 +518,10 @@ def specAll (ops : List Proto.Op) : Option String :=
       if o.obs.any (fun l => l.head? == some "crash") then
         (match o.obs.find? (fun l => l.head? == some "inrunner") with
          | some l => some s!"test {" ".intercalate (l.drop 1)} was executed inside the runner process although separate-process mode was requested, and the runner itself died"
-         | none => some "the implementation crashed or hung") else
+         | none =>
+           if d.nproc0 && o.op == ["run"] then
+             some "the real fork seam fails with EAGAIN in this process (RLIMIT_NPROC 0) and the parent never came back: a failing fork is retried instead of being reported, the remaining tests never run"
+           else some "the implementation crashed or hung") else
       match o.op with
       | ["run"] =>
         if d.ran || d.tests.isEmpty then go d rest else
@@ -515,6 +529,10 @@ def specAll (ops : List Proto.Op) : Option String :=
         | .ok _ => go { d with ran := true } rest
         | .error e => some e
       | ["skip"] => go d rest
+      | ["nproc0"] =>
+        if d.ran || d.tests.isEmpty || d.nproc0 then go d rest
+        else if o.obs.any (· == ["forkfail", "unsupported"]) then go { d with nproc0 := true, ran := true } rest
+        else go { d with nproc0 := true } rest
       | op =>
         match applyOp d op with
         | some d' => go d' rest
